@@ -251,7 +251,7 @@ func checkC06(c *Ctx, r *Report) {
 	checkAnnotationConst(c, r, "C06.e", "core/metadata.GetErrorResponses", "GleeceAnnotationErrorResponse")
 
 	// requiredness
-	checkRequiredness(c, r)
+	checkRequiredness(c, r, "C06.f")
 }
 
 // checkValidatorApplied: the validation converter is applied to the same schema with the
@@ -626,7 +626,7 @@ func checkStatusRule(c *Ctx, r *Report) {
 
 // checkRequiredness (C06.f / C05.e): the implicit-required rule, and agreement between the
 // writer of the tag (appendParamRequiredValidation) and its reader (IsFieldRequired).
-func checkRequiredness(c *Ctx, r *Report) {
+func checkRequiredness(c *Ctx, r *Report, clause string) {
 	w := c.W
 	const ap = "core/metadata.appendParamRequiredValidation"
 	const isr = "generator/swagen/swagtool.IsFieldRequired"
@@ -667,7 +667,7 @@ func checkRequiredness(c *Ctx, r *Report) {
 	var sites []string
 	viol := ""
 	for _, k := range []string{ap, isr} {
-		if fi := need(c, r, "C06.f", k); fi != nil {
+		if fi := need(c, r, clause, k); fi != nil {
 			ok, why, s := exactIdiom(fi)
 			sites = append(sites, s...)
 			if !ok {
@@ -675,11 +675,11 @@ func checkRequiredness(c *Ctx, r *Report) {
 			}
 		}
 	}
-	o := r.add("C06.f", "sibling-idiom", "required-tag:writer==reader", "the function that adds the implicit 'required' tag and the function that reads it both match the tag exactly (split on ',' and ==)", []string{ap, isr}, sites, viol)
+	o := r.add(clause, "sibling-idiom", "required-tag:writer==reader", "the function that adds the implicit 'required' tag and the function that reads it both match the tag exactly (split on ',' and ==)", []string{ap, isr}, sites, viol)
 	o.NonTrivial = true
 
 	// the only return without 'required' is under isPointer && passedIn != Path
-	if fi := need(c, r, "C06.f", ap); fi != nil {
+	if fi := need(c, r, clause, ap); fi != nil {
 		viol := ""
 		var sites []string
 		var isPtr, passed *ssa.Parameter
@@ -721,11 +721,11 @@ func checkRequiredness(c *Ctx, r *Report) {
 				viol = fmt.Sprintf("%s: the validator is returned without 'required' on a path that is neither (pointer ∧ not a path parameter) nor (tag already present)", w.pos(retPos(ex)))
 			}
 		}
-		o := r.add("C06.f", "guardedby", ap+":required-unless-optional-pointer", "required is implied unless the parameter is a pointer that is not a path parameter", []string{ap}, sites, viol)
+		o := r.add(clause, "guardedby", ap+":required-unless-optional-pointer", "required is implied unless the parameter is a pointer that is not a path parameter", []string{ap}, sites, viol)
 		o.NonTrivial = true
 	}
 	// GetParamValidator feeds it with the annotation's validate property, location and pointer-ness
-	if fi := need(c, r, "C06.f", "core/metadata.GetParamValidator"); fi != nil {
+	if fi := need(c, r, clause, "core/metadata.GetParamValidator"); fi != nil {
 		viol := ""
 		var sites []string
 		calls := callsIn(fi.SSA, false, nameIs(ap))
@@ -757,6 +757,6 @@ func checkRequiredness(c *Ctx, r *Report) {
 		if v2 != "" {
 			viol = v2
 		}
-		r.add("C06.f", "mustcall", fi.Key+"->"+ap, "every parameter's validator passes through the implicit-required rule", []string{fi.Key}, sites, viol)
+		r.add(clause, "mustcall", fi.Key+"->"+ap, "every parameter's validator passes through the implicit-required rule", []string{fi.Key}, sites, viol)
 	}
 }
